@@ -286,6 +286,14 @@ def signature_of(desc):
 # ---------------------------------------------------------------- part B1: targeted tests
 
 
+def headline(stderr):
+    for l in stderr.splitlines():
+        if "fatal error:" in l or "BLOCKED" in l or "WARNING: DATA RACE" in l or l.startswith("panic:"):
+            return l.strip()[:300]
+    return (stderr.strip().splitlines() or ["?"])[-1][:300]
+
+
+
 def run_pair(concbin, comp, a, b, iters, seed, single=False, full=False, calls=3):
     cmd = [concbin, "pair", "-comp", comp, "-a", a, "-b", b, "-iters", str(iters), "-seed", str(seed), "-calls", str(calls)]
     if single:
@@ -538,7 +546,7 @@ def run_check(pid, tier, seed, replay=None):
             run.violation("%s-%s-%s-seed%d.json" % (f["kind"], comp, a, seed),
                           {"kind": f["kind"], "comp": comp, "a": a, "b": b, "model": f["detail"], "stderr": pr["stderr"]},
                           "%s of %s.%s%s found in the extracted lock model and reproduced on the real code: %s"
-                          % (f["kind"], comp, a, (" x " + b) if b else "", (pr["stderr"].strip().splitlines() or ["?"])[-1][:300]))
+                          % (f["kind"], comp, a, (" x " + b) if b else "", headline(pr["stderr"])))
         elif pr["reports"]:
             classify_reports(run, ex, pr["reports"], findings, "pair %s.%s x %s" % (comp, a, b), seed)
         else:
@@ -720,7 +728,7 @@ def do_replay(path, seed):
             return 0
         pr = run_pair(concbin, comp, a, b or a, 5000, seed, single=(kind in ("badunlock", "lockleak") or not b))
         if pr["reports"] or pr["blocked"] or pr["fatal"]:
-            lib.report_violation(PID, path, "reproduced: %s" % (pr["stderr"].strip().splitlines() or ["?"])[-1][:300])
+            lib.report_violation(PID, path, "reproduced: %s" % headline(pr["stderr"]))
             return 1
         return 0
     if kind == "blocked-history":
